@@ -163,7 +163,7 @@ def run(ctx):
         subS._summ = summariser(ctx)
         subS._shared_into_c05 = True
         mod.run(subS)
-        for e in subS.errors:
+        for e in relevant_errors(subS, rules):
             ctx.error("shared %s rules: %s" % (subS.prop, e))
         for o in subS.obligations:
             if o.rule in rules and ("_sizeof" in str(o.where) or "_actualsize" in str(o.where) or o.rule == "C16.R6"):
